@@ -1,6 +1,7 @@
 //! `vh` - verification harness: runs the real iggy code (built from /repo's working tree) on
 //! traces given as JSON lines on stdin and prints one JSON observation line per trace.
 mod common;
+mod perm;
 mod route;
 
 fn main() {
@@ -13,6 +14,7 @@ fn main() {
     match mode.as_str() {
         "route" => rt.block_on(route::main()),
         "hash" => route::hash_main(),
+        "perm" => perm::main(),
         _ => {
             eprintln!("usage: vh <mode>");
             std::process::exit(2);
